@@ -214,6 +214,21 @@ static std::string run_op(Tbl &t, std::unique_ptr<LT> &lt, const OpSpec &o) {
       if (made > 0) return "HETERO " + res + " (a lookup through a compatible type constructed " + std::to_string(made) + " key/value object(s))";
       return res;
     }
+    // C16, through the locked table: find / count / erase with a compatible type must agree with key_type and build no key
+    if (o.kind == "ltfindp" || o.kind == "ltcountp" || o.kind == "lterasep") {
+      if (!lt) return "nolt";
+      bool present = lt->find(IKey(o.a)) != lt->end();
+      long c0 = R.constructed;
+      std::string res;
+      if (o.kind == "ltfindp") res = lt->find(Probe{o.a}) != lt->end() ? "1" : "0";
+      else if (o.kind == "ltcountp") res = std::to_string(lt->count(Probe{o.a}));
+      else res = std::to_string(lt->erase(Probe{o.a}));
+      long made = R.constructed - c0;
+      std::string want = present ? "1" : "0";
+      if (res != want) return "HETERO " + res + " (a locked-table lookup through a compatible type answers " + res + ", through key_type " + want + ")";
+      if (made > 0) return "HETERO " + res + " (a locked-table lookup through a compatible type constructed " + std::to_string(made) + " key/value object(s))";
+      return res;
+    }
     if (o.kind == "find") { IVal v; return t.find(IKey(o.a), v) ? std::to_string(v.v) : "-"; }
     if (o.kind == "upd") return t.update(IKey(o.a), IVal(o.b)) ? "1" : "0";
     if (o.kind == "rehash") return t.rehash(o.a) ? "1" : "0";
